@@ -482,7 +482,7 @@ func ruleMustUpdate(r *Run) {
 				instVals = append(instVals, x.Value)
 			}
 		case *ssa.Call:
-			if cal := staticCallee(x); cal != nil && cal.Name() == "updateNumberingFile" {
+			if cal := staticCallee(x); calleeIs(cal, "updateNumberingFile") {
 				upd = append(upd, x)
 			}
 		}
